@@ -35,7 +35,8 @@ def gen_config(rng, tier, flavor="db"):
     n_pos = rng.choice([1, 2, 2, 3, 3, 4] + ([5] if big else []))
     n_alleles = [rng.choice([2, 2, 2, 3, 4]) for _ in range(n_pos)]
     n_temps = rng.choice([1, 1, 2, 2, 3])
-    temps = sorted({rng.choice([0.01, 0.05, 0.1, 0.25, 0.5, 0.75, 0.9]) for _ in range(n_temps - 1)})
+    # 0.0 is a legal rung for the API (the sampler asserts temperatures[0] >= 0): a chain that ignores the data
+    temps = sorted({rng.choice([0.0, 0.01, 0.05, 0.1, 0.25, 0.5, 0.75, 0.9]) for _ in range(n_temps - 1)})
     temps = temps + [1.0]
     cache_mode = rng.choice(["default", "off", "always", "tiny", "tiny"])
     if cache_mode == "tiny":
